@@ -1155,6 +1155,7 @@ func genC09(c *Ctx) {
 			}
 		}
 	}
+	c09Degrees(c)
 	c09RGSW(c)
 	c09Circuits(c)
 	c09LinTrans(c)
